@@ -54,8 +54,8 @@ THEOREMS += ["OdxVerif.Codec." + t for t in [
     'Good.rawAt', 'Comp.matchingReq_ok',
     'encodeDop_std_cursorBit', 'Good.peek', 'emProbe_miss', 'emProbe_hit', 'decodeUntilMarkerC_eq', 'DComp.endMarkerEop_ok',
     'DComp.endMarkerMid_ok', 'Comp.ofValueM_ok', 'EmLayout.miss_of_first', 'EmLayout.miss_withByteSize',
-    'encodeDop_keeps_eop_false', 'encodeStaticItemsM_eq', 'decodeStaticItemsM_eq', 'DComp.staticFieldM_ok', 'DComp.mux_okM',
-    'ex2_described', 'ex2St_described', 'ex2Tail_described', 'ex3_described', 'ex4_described', 'ex5_described']]
+    'encodeDop_keeps_eop_false', 'encodeStaticItemsM_eq', 'decodeStaticItemsM_eq', 'DComp.staticFieldM_ok', 'DComp.mux_okM', 'encodeItemsM_eq', 'DComp.dynLenFieldM_okM', 'DComp.eopFieldM_ok',
+    'ex2_described', 'ex2St_described', 'ex2Tail_described', 'ex3_described', 'ex4_described', 'ex5_described', 'ex6_described']]
 RULE = ("well-formed descriptions (envelope wf of DESIGN §6/C01, by construction in harness/odxgen/gen.py) x canonical values "
         "(odxgen/values.py): corpus of past failures; every BYTE-SIZE structure size x offset; every (integer type, encoding, byte order, "
         "bit length, bit position) standard-length DOP with boundary values; floats/strings/byte fields x encodings x byte orders; random "
